@@ -36,6 +36,13 @@ def run(ctx):
             recs = ctx.read_ndjson(of)
             ctx.samples = [dict(text=x["obs"]["text"], accepted=x["obs"]["accepted"], ops=len(x["obs"].get("ops", [])))
                            for x in recs[3:len(recs):len(recs) // 5]]
+    # the repository's own test statements (~400, in the maintainers' spellings) as an extra trace source
+    of = ctx.path("obs_repo.ndjson")
+    ctx.drive("c13", None, of, args=["repo-corpus"])
+    if ctx.count_lines(of) < 100:
+        raise vp.Broken("repo corpus: only %d statements harvested from the repository's test files" % ctx.count_lines(of))
+    ctx.judge("Judge_c13", "Judge_c13.cfg", of, label="repo")
+    ctx.note("repo corpus: %d statements from the repository's own tests" % ctx.count_lines(of))
     return vp.case_finder
 
 
